@@ -57,10 +57,10 @@ structure Node where
   pos : Nat          -- WordInfoData.pos_id
   hwl : Nat          -- head_word_length
   dfw : Int          -- dictionary_form_word_id
-  nA : Nat           -- lengths of a_unit_split, b_unit_split, word_structure, synonym_group_ids
-  nB : Nat
-  nW : Nat
-  nS : Nat
+  aSplit : List Nat  -- a_unit_split, b_unit_split, word_structure (raw word ids), synonym_group_ids
+  bSplit : List Nat
+  wStruct : List Nat
+  syn : List Nat
   surface : List Char   -- raw WordInfoData strings (may be empty = "same as surface")
   norm : List Char
   reading : List Char
@@ -103,7 +103,7 @@ def block (path : List Node) (b e : Nat) : List Node := (path.drop b).take (e - 
 def mergedNode (f l : Node) (blk : List Node) (nf : Option (List Char)) : Node :=
   { b := f.b, e := l.e, bb := f.bb, eb := l.eb, wid := WID_INVALID, tc := l.tc,
     left := 65535, right := 65535, cost := 32767, pos := f.pos, hwl := sumHwl blk, dfw := -1,
-    nA := 0, nB := 0, nW := 0, nS := 0,
+    aSplit := [], bSplit := [], wStruct := [], syn := [],     -- `..Default::default()`
     surface := catSurface blk,
     norm := match nf with
       | some s => s
@@ -130,7 +130,7 @@ def mergedOovNode (f l : Node) (blk : List Node) (posId : Nat) : Node :=
   { b := f.b, e := l.e, bb := f.bb, eb := l.eb,
     wid := if widIsOov w then w else (w / 268435456) * 268435456 + MAX_WORD,
     tc := l.tc, left := 65535, right := 65535, cost := 32767, pos := posId, hwl := sumHwl blk,
-    dfw := -1, nA := 0, nB := 0, nW := 0, nS := 0,
+    dfw := -1, aSplit := [], bSplit := [], wStruct := [], syn := [],
     surface := catSurface blk, norm := catSurface blk, reading := [], dform := catSurface blk }
 
 /-- `concat_oov_nodes(path, begin, end, pos_id)` -/
@@ -209,7 +209,7 @@ def skipBow (cat : List Nat) (path : List Node) (b e : Nat) : Outcome Nat :=
 inductive KStep where
   | next                       -- `i += 1; continue`
   | join (b e : Nat)           -- concat_oov_nodes(path, b, e); i = b + 1; i += 1
-deriving Repr
+deriving Repr, DecidableEq
 
 /-- body of the outer loop for index `i` -/
 def kstep (cfg : KCfg) (cat : List Nat) (path : List Node) (i : Nat) (node : Node) : Outcome KStep :=
@@ -434,6 +434,42 @@ def rewriteAll (v : NVariant) (cat : List Nat) (P : List Char → POut) :
     | .ok p' => rewriteAll v cat P rest p'
     | .err => .err | .panic => .panic | .fuel => .fuel
 
+/-! ## A/B splitting of the rewritten path (`stateless_tokenizer.rs:111 split_path`, called by
+`do_tokenize` right after the plugin loop)
+
+`NodeSplitIterator` (the units of ONE node: word infos of the unit ids read from the lexicon, ranges
+from the head-word lengths — property C09, `Model/Split.lean`) enters as the parameter
+`U : Mode → Node → List Node`; what is modelled here is which nodes of the rewritten path are handed
+to it at all: `split_len = node.num_splits(mode); if split_len <= 1 { push(node) } else { extend(split) }`. -/
+
+inductive Mode where
+  | A | B | C
+deriving Repr, DecidableEq
+
+/-- `ResultNode::num_splits` -/
+def numSplits (m : Mode) (n : Node) : Nat :=
+  match m with
+  | .A => n.aSplit.length
+  | .B => n.bSplit.length
+  | .C => 0
+
+/-- body of the loop of `split_path` -/
+def splitNode (U : Mode → Node → List Node) (m : Mode) (n : Node) : List Node :=
+  if numSplits m n ≤ 1 then [n] else U m n
+
+/-- `split_path(dict, path, mode, subset, input)` -/
+def splitPath (U : Mode → Node → List Node) (m : Mode) (path : List Node) : List Node :=
+  match m with
+  | .C => path                                   -- `if mode == Mode::C { return Ok(path) }`
+  | _ => path.flatMap (splitNode U m)
+
+/-- `do_tokenize` from the best path on: the plugin loop, then `split_path` -/
+def analyse (v : NVariant) (cat : List Nat) (P : List Char → POut) (U : Mode → Node → List Node)
+    (pls : List Plugin) (m : Mode) (path : List Node) : Outcome (List Node) :=
+  match rewriteAll v cat P pls path with
+  | .ok q => .ok (splitPath U m q)
+  | .err => .err | .panic => .panic | .fuel => .fuel
+
 /-! ## driver entry -/
 
 def hexStr? (s : List Char) : Option (List Char) :=
@@ -454,7 +490,8 @@ def hexDigit (n : Nat) : Char :=
 def showHexStr (s : List Char) : String :=
   String.ofList (s.flatMap (fun c => (utf8Encode c).flatMap (fun b => [hexDigit (b / 16), hexDigit (b % 16)])))
 
-/-- `b:e:bb:eb:wid:tc:left:right:cost:pos:hwl:dfw:nA:nB:nW:nS:surface:norm:reading:dform` -/
+/-- `b:e:bb:eb:wid:tc:left:right:cost:pos:hwl:dfw:A:B:W:S:surface:norm:reading:dform`
+(`A`, `B`, `W`, `S` = comma-separated id lists, possibly empty) -/
 def parseNode (s : List Char) : Option Node :=
   match Wire.items ':' s with
   | [b, e, bb, eb, wid, tc, l, r, c, pos, hwl, dfw, nA, nB, nW, nS, sf, nm, rd, df] =>
@@ -462,13 +499,13 @@ def parseNode (s : List Char) : Option Node :=
     | some b, some e, some bb, some eb, some wid, some tc =>
       match Wire.nat? l, Wire.nat? r, Wire.int? c, Wire.nat? pos, Wire.nat? hwl, Wire.int? dfw with
       | some l, some r, some c, some pos, some hwl, some dfw =>
-        match Wire.nat? nA, Wire.nat? nB, Wire.nat? nW, Wire.nat? nS with
+        match Wire.natList? nA, Wire.natList? nB, Wire.natList? nW, Wire.natList? nS with
         | some nA, some nB, some nW, some nS =>
           match hexStr? sf, hexStr? nm, hexStr? rd, hexStr? df with
           | some sf, some nm, some rd, some df =>
             some { b := b, e := e, bb := bb, eb := eb, wid := wid, tc := tc, left := l, right := r,
-                   cost := c, pos := pos, hwl := hwl, dfw := dfw, nA := nA, nB := nB, nW := nW,
-                   nS := nS, surface := sf, norm := nm, reading := rd, dform := df }
+                   cost := c, pos := pos, hwl := hwl, dfw := dfw, aSplit := nA, bSplit := nB,
+                   wStruct := nW, syn := nS, surface := sf, norm := nm, reading := rd, dform := df }
           | _, _, _, _ => none
         | _, _, _, _ => none
       | _, _, _, _, _, _ => none
@@ -478,7 +515,8 @@ def parseNode (s : List Char) : Option Node :=
 def showNode (n : Node) : String :=
   Wire.joinWith ":" [toString n.b, toString n.e, toString n.bb, toString n.eb, toString n.wid,
     toString n.tc, toString n.left, toString n.right, toString n.cost, toString n.pos,
-    toString n.hwl, toString n.dfw, toString n.nA, toString n.nB, toString n.nW, toString n.nS,
+    toString n.hwl, toString n.dfw, Wire.showNats n.aSplit, Wire.showNats n.bSplit,
+    Wire.showNats n.wStruct, Wire.showNats n.syn,
     showHexStr n.surface, showHexStr n.norm, showHexStr n.reading, showHexStr n.dform]
 
 def showPath (p : List Node) : String := Wire.joinWith ";" (p.map showNode)
@@ -527,16 +565,53 @@ def parseVariant (t : Option (List Char)) : Option NVariant :=
   | none => some .cur
   | some s => if s == "cur".toList then some .cur else if s == "fix".toList then some .fix else none
 
-/-- `C14 stack idx=.. [nv=cur|fix] cat=<masks> plugins=<p;p..> path=<node;..> pq=<entry;..>` -/
+/-- unit table entry `<b>|<e>|<wid>|<node>;<node>;…`: what `NodeSplitIterator` yields for the node
+with that range and word id (observed on the un-rewritten analysis in the same mode) -/
+def parseUnits (s : List Char) : Option ((Nat × Nat × Nat) × List Node) :=
+  match Wire.items '|' s with
+  | [b, e, w, ns] =>
+    match Wire.nat? b, Wire.nat? e, Wire.nat? w, Wire.allSome ((Wire.items ';' ns).map parseNode) with
+    | some b, some e, some w, some ns => some ((b, e, w), ns)
+    | _, _, _, _ => none
+  | _ => none
+
+/-- a node that the shipped table does not contain yields no units (shows up as a mismatch) -/
+def tableU (tab : List ((Nat × Nat × Nat) × List Node)) (n : Node) : List Node :=
+  match tab.find? (fun p => p.1 == (n.b, n.e, n.wid)) with
+  | some p => p.2
+  | none => []
+
+def parseUnitTab (t : Option (List Char)) : Option (Option (List ((Nat × Nat × Nat) × List Node))) :=
+  match t with
+  | none => some none
+  | some s => (Wire.allSome ((Wire.items '/' s).map parseUnits)).map some
+
+/-- `C14 stack idx=.. [nv=cur|fix] cat=<masks> plugins=<p;p..> path=<node;..> pq=<entry;..>
+[ua=<units/..>] [ub=<units/..>]`; answer `ok <mode-C path>[ A=<mode-A path>][ B=<mode-B path>]` -/
 def handle (toks : List (List Char)) : String :=
   match Wire.kv? toks "cat", Wire.kv? toks "plugins", Wire.kv? toks "path", Wire.kv? toks "pq",
         parseVariant (Wire.kv? toks "nv") with
   | some c, some pl, some pa, some pq, some v =>
     match Wire.natList? c, Wire.allSome ((Wire.items ';' pl).map parsePlugin),
-          Wire.allSome ((Wire.items ';' pa).map parseNode), Wire.allSome ((Wire.items ';' pq).map parsePq) with
-    | some cat, some plugins, some path, some tab =>
-      showOutcome (rewriteAll v cat (tableP tab) plugins path)
-    | _, _, _, _ => "bad-op"
+          Wire.allSome ((Wire.items ';' pa).map parseNode), Wire.allSome ((Wire.items ';' pq).map parsePq),
+          parseUnitTab (Wire.kv? toks "ua"), parseUnitTab (Wire.kv? toks "ub") with
+    | some cat, some plugins, some path, some tab, some ua, some ub =>
+      let U : Mode → Node → List Node := fun m n =>
+        match m, ua, ub with
+        | .A, some t, _ => tableU t n
+        | .B, _, some t => tableU t n
+        | _, _, _ => []
+      match analyse v cat (tableP tab) U plugins .C path with
+      | .ok q =>
+        let sa := match ua with
+          | some _ => " A=" ++ showOutcome (analyse v cat (tableP tab) U plugins .A path)
+          | none => ""
+        let sb := match ub with
+          | some _ => " B=" ++ showOutcome (analyse v cat (tableP tab) U plugins .B path)
+          | none => ""
+        "ok " ++ showPath q ++ sa ++ sb
+      | o => showOutcome o
+    | _, _, _, _, _, _ => "bad-op"
   | _, _, _, _, _ => "bad-op"
 
 end Rewrite
